@@ -25,7 +25,8 @@ CONSTANTS MaxChanges,   \* longest schedule
           Skips,        \* how far the next change may lie from the previous one (in boundaries)
           OnlyBfs,      \* TRUE: only the windows marked for exhaustive exploration
           FillerIdx,    \* the fillers in use (indices into Fillers)
-          Inject        \* TRUE: Finish also hands out variants with a syntax error to inject
+          Inject,       \* TRUE: Finish also hands out variants with a syntax error to inject
+          FinishEarly   \* TRUE: every schedule is handed out; FALSE: only complete sweeps (cursor at the end)
 
 \* [wid, toks, fill0, bfs, inj]: token strings, original fillers (Len(toks) - 1 of them),
 \* exhaustive exploration wanted, error injection possible (the window is a whole small text)
@@ -118,6 +119,7 @@ EmitCase(inj) ==
 
 Finish ==
   /\ ~gDone /\ gN >= MinChanges
+  /\ (IF FinishEarly THEN TRUE ELSE IF gN = MaxChanges THEN TRUE ELSE gB >= NTok(gW))
   /\ \A inj \in InjChoices : EmitCase(inj)
   /\ gDone' = TRUE
   /\ UNCHANGED <<gW, gFill, gB, gN, gCh>>
